@@ -92,7 +92,28 @@ TAuditStep ==
      /\ Len(Ev.inserted) = Cardinality(pr.inserted)
   /\ Same
 
-TNext == TTree \/ TMem \/ TNonMem \/ TAuditStep
+(* C09: the adversarial server against the real auditor; candidates as in AkdTrie!AuditSoundAt *)
+TAuditor ==
+  /\ IsEv("auditor")
+  /\ LET M == Material(store, Cur)
+         nIns == Cardinality(AuditInsertedChoices(D, { <<"V", 1>>, <<"V", 2>> }, Ev.max_i))
+         UChoices == { A \in SUBSET (M.N \ {<<>>}) : Cardinality(A) <= Ev.max_u }
+     IN /\ \A k \in 1..Len(Ev.cands) :
+             LET c == Ev.cands[k]
+                 U == { M.el[a] : a \in ToSet(c.u) }
+                 I == { [label |-> x[1], value |-> <<"V", x[2]>>] : x \in ToSet(c.i) }
+                 startOk == AuditorStartHash(U) = Root
+             IN /\ c.start_ok = startOk
+                /\ c.verdict = (startOk /\ (PrefixFreeChecked => AuditorPrefixFree(U, I, Cur + 1, FALSE)))
+                /\ c.start_ok => ToSet(c.survive) = AuditorSurvivors(U, I, Cur + 1)
+                /\ c.verdict => CommittedBy(Root) \subseteq CommittedBy(AuditorEndHash(U, I, Cur + 1))
+        /\ { ToSet(Ev.cands[k].u) : k \in 1..Len(Ev.cands) } = UChoices          \* every choice was tried
+        /\ Len(Ev.cands) = Cardinality({ A \in UChoices : AuditorStartHash({ M.el[a] : a \in A }) = Root }) * nIns
+                            + Cardinality({ A \in UChoices : AuditorStartHash({ M.el[a] : a \in A }) # Root })
+        /\ Ev.dup_verdict \in {"n/a", "false"}
+  /\ Same
+
+TNext == TTree \/ TMem \/ TNonMem \/ TAuditStep \/ TAuditor
 
 Track == TLCSet(1, IF pos > TLCGet(1) THEN pos ELSE TLCGet(1))
 
